@@ -270,14 +270,16 @@ def ofetchRef (st : List ((String × Int) × CState)) (req : String) : Option St
     | [n, ps] => do let ps ← (splitD ps ".").mapM (·.toInt?); pure (n, ps)
     | _ => none
   let ts ← if req == "nil" || req == "empty" then some allTs else parsed
-  let ts := sortBy (fun a b => a.1 < b.1) ts
+  let ts := sortBy (fun a b => a.1 < b.1) (ts.filter (·.1 != "*"))
+  let groupErr : Option Int := match st.find? (fun e => e.1 == ("*", 0)) with | some (_, .err g) => some g | _ => none
   let body := ts.map fun (n, ps) =>
     s!"{n}:" ++ ",".intercalate (ps.map fun p =>
+      if let some g := groupErr then s!"{p}/-1//{g}" else
       match st.find? (fun e => e.1 == (n, p)) with
       | some (_, .err e) => s!"{p}/-1//{e}"
       | some (_, .val o m) => s!"{p}/{o}/{m}/0"
       | none => s!"{p}/-1//0")
-  pure s!"0;{"|".intercalate body}"
+  pure s!"{groupErr.getD 0};{"|".intercalate body}"
 
 def knownTopics : List String := ["a", "b", "c", "d", "e", "ab"]
 
@@ -302,11 +304,39 @@ def ocommitRef (st : List ((String × Int) × CState)) (req : String) : Option S
     else (st.filter fun e => e.1 != (n, p)) ++ [((n, p), CState.val o m)]) st) st
   pure s!"{resp} {showCState st'}"
 
+/-- ConsumerOffsets reference: a failure of the whole OffsetFetch (group-level error) is reported as an error; a failure
+on one partition is reported (the call returns an error) and that partition is NOT presented as "nothing committed";
+every other partition carries the coordinator's committed offset (−1 when nothing is committed) -/
 def coffsetsRef (st : List ((String × Int) × CState)) (t : String) (np : Nat) : String :=
-  dash (",".intercalate ((List.range np).map fun p =>
+  match st.find? (fun e => e.1 == ("*", 0)) with
+  | some (_, .err g) => s!"err {g} -"
+  | _ =>
+    let parts := (List.range np).map fun p => (p, st.find? (fun e => e.1 == (t, Int.ofNat p)))
+    let good := parts.filterMap fun (p, e) => match e with
+      | some (_, .val o _) => some s!"{p}={o}"
+      | some (_, .err _) => none
+      | none => some s!"{p}=-1"
+    let firstErr := parts.findSome? fun (_, e) => match e with | some (_, .err c) => some c | _ => none
+    match firstErr with
+    | some c => s!"err {c} {dash (",".intercalate good)}"
+    | none => dash (",".intercalate good)
+
+/-- ConsumerOffsets through the model: the coordinator's per-partition answers for the topic's partitions, mapped by
+`Mappings.consumerOffsets` -/
+def coffsetsModel (st : List ((String × Int) × CState)) (t : String) (np : Nat) : String :=
+  let groupErr : Int := match st.find? (fun e => e.1 == ("*", 0)) with | some (_, .err g) => g | _ => 0
+  let fetched : List KV.Mappings.UOFPart := (List.range np).map fun p =>
     match st.find? (fun e => e.1 == (t, Int.ofNat p)) with
-    | some (_, .val o _) => s!"{p}={o}"
-    | _ => s!"{p}=-1"))
+    | some (_, .val o m) => ⟨Int.ofNat p, o, m, 0⟩
+    | some (_, .err c) => ⟨Int.ofNat p, -1, "", c⟩
+    | none => ⟨Int.ofNat p, -1, "", 0⟩
+  match KV.Mappings.consumerOffsets groupErr fetched with
+  | .error g => s!"err {g} -"
+  | .ok (m, e) =>
+    let body := dash (",".intercalate ((sortBy (fun a b => decide (a.1 < b.1)) m).map fun (p, o) => s!"{p}={o}"))
+    match e with
+    | some (_, code) => s!"err {code} {body}"
+    | none => body
 
 /-- metadata reference: the op's cluster description is already in the canonical output format -/
 def metaRef (filter : String) (cluster : String) : Option String :=
@@ -358,7 +388,7 @@ def rpartsModel (connTopic : String) (args : List String) (m : KV.Routing.MRespo
   match KV.Mappings.readPartitions connTopic answer with
   | .error e => s!"err {e}"
   | .ok ps => dash (",".intercalate (strSort (ps.map fun p =>
-      s!"{p.topic}/{p.id}={p.leader.id}={showIds p.replicas}={showIds p.isr}")))
+      s!"{p.topic}/{p.id}={p.leader.id}={showIds p.replicas}={showIds p.isr}={p.error}")))
 
 /-- reference: the first asked topic carrying an error that concerns this connection decides; otherwise every
 partition of every asked topic with the cluster's leader / replicas / ISR -/
@@ -382,12 +412,77 @@ def rpartsRef (connTopic : String) (topics : String) (cluster : String) : Option
           match t.splitOn ":" with
           | [_, _, _, parts] => (splitD parts ",").filterMap fun p =>
               match p.splitOn "=" with
-              | [i, l, _, r, isr] => some s!"{n}/{i}={l}={r}={isr}"
+              | [i, l, pe, r, isr] => some s!"{n}/{i}={l}={r}={isr}={pe}"
               | _ => none
           | _ => []
         | none => []
       some (dash (",".intercalate (strSort ps)))
   | _ => none
+
+/-! ### F-level mapping ops (stub RoundTripper): the models of Model/Mappings.lean executed on arbitrary responses -/
+
+def showUPart (p : KV.Mappings.UPartition) : String :=
+  s!"{p.id}={p.leader.id}={p.error}={showIds p.replicas}={showIds p.isr}"
+
+def fmetaModel (m : KV.Routing.MResponse) : String :=
+  let u := KV.Mappings.clientMetadata m
+  let bs := dash (",".intercalate (u.brokers.map fun b => toString b.id))
+  let ts := dash ("|".intercalate (u.topics.map fun t =>
+    s!"{t.name}:{t.error}:{if t.internal then 1 else 0}:{dash (",".intercalate (t.partitions.map showUPart))}"))
+  s!"{u.controller.id}/{bs}/{ts}"
+
+/-- reference: every id (controller when listed, leader, replicas, ISR), error code and flag of the answer is reported
+as is, in the answer's order -/
+def fmetaRef (m : KV.Routing.MResponse) : String :=
+  let bs := dash (",".intercalate (m.brokers.map fun b => toString b.nodeID))
+  let ctrl := if m.brokers.any (·.nodeID == m.controller) then m.controller else 0
+  let ids (l : List Int) : String := if l.isEmpty then "-" else ".".intercalate (l.map toString)
+  let ts := dash ("|".intercalate (m.topics.map fun t =>
+    s!"{t.name}:{t.error}:{if t.internal then 1 else 0}:{dash (",".intercalate (t.partitions.map fun p =>
+      s!"{p.index}={p.leader}={p.error}={ids p.replicas}={ids p.isr}"))}"))
+  s!"{ctrl}/{bs}/{ts}"
+
+def parseOF (s : String) : Option KV.Mappings.OFResponse :=
+  match s.splitOn ";" with
+  | [e, ts] => do
+    let e ← e.toInt?
+    let ts ← (splitD ts "|").mapM fun (t : String) =>
+      match t.splitOn ":" with
+      | [n, ps] => do
+        let ps ← (splitD ps ",").mapM fun (p : String) =>
+          match p.splitOn "/" with
+          | [i, o, md, er] => do let i ← i.toInt?; let o ← o.toInt?; let er ← er.toInt?; pure (⟨i, o, md, er⟩ : KV.Mappings.OFPart)
+          | _ => none
+        pure (n, ps)
+      | _ => none
+    pure ⟨0, ts, e⟩
+  | _ => none
+
+def fofetchModel (r : KV.Mappings.OFResponse) : String :=
+  let u := KV.Mappings.offsetFetchResponse r
+  let ts := sortBy (fun a b => a.1 < b.1) u.topics
+  s!"{u.error};{dash ("|".intercalate (ts.map fun (n, ps) =>
+    s!"{n}:{dash (",".intercalate (ps.map fun p => s!"{p.partition}/{p.committed}/{p.metadata}/{p.error}"))}"))}"
+
+def parseOC (s : String) : Option (List (String × List (Int × Int))) :=
+  (splitD s "|").mapM fun (t : String) =>
+    match t.splitOn ":" with
+    | [n, ps] => do
+      let ps ← (splitD ps ",").mapM fun (p : String) =>
+        match p.splitOn "/" with
+        | [i, e] => do let i ← i.toInt?; let e ← e.toInt?; pure (i, e)
+        | _ => none
+      pure (n, ps)
+    | _ => none
+
+def focommitModel (r : List (String × List (Int × Int))) : String :=
+  let ts := sortBy (fun a b => a.1 < b.1) (KV.Mappings.offsetCommitResponse r)
+  dash ("|".intercalate (ts.map fun (n, ps) => s!"{n}:{dash (",".intercalate (ps.map fun (p, e) => s!"{p}/{e}"))}"))
+
+/-- reference for the two group mappings: per topic name the LAST listed entry (a Go map), values untouched -/
+def lastPerName {α : Type} (ts : List (String × α)) : List (String × α) :=
+  let names := sortBy (fun a b => a < b) ((ts.map (·.1)).eraseDups)
+  names.filterMap fun n => (ts.reverse.find? (·.1 == n))
 
 /-! ### dispatcher -/
 
@@ -430,11 +525,119 @@ def step (line : String) : String :=
       | none => "bad-op"
     | ["coffsets", st, t, np] =>
       match parseCState st, np.toNat? with
-      | some st, some np => let want := coffsetsRef st t np; answer want (impl == want)
+      | some st, some np => answer (coffsetsModel st t np) (impl == coffsetsRef st t np)
       | _, _ => "bad-op"
     | ["meta", f, c] =>
       match metaRef f c with
       | some want => answer want (impl == want)
+      | none => "bad-op"
+    | ["freqofetch", g, form] =>
+      let parsed : Option (List (String × List Int)) :=
+        if form == "nil" || form == "empty" then some [] else (splitD form "|").mapM fun (t : String) =>
+          match t.splitOn ":" with
+          | [n, ps] => do let ps ← (splitD ps ".").mapM (·.toInt?); pure (n, ps)
+          | _ => none
+      match parsed with
+      | some topics =>
+        let showTs (ts : List (String × List Int)) : String :=
+          dash ("|".intercalate ((sortBy (fun a b => a.1 < b.1) ts).map fun (n, ps) =>
+            s!"{n}:{dash (".".intercalate (ps.map toString))}"))
+        let (grp, asked) := KV.Mappings.offsetFetchRequest g topics
+        let model := s!"{grp};{match asked with | none => "NULL" | some ts => showTs ts}"
+        -- reference: the group as given; no topic named = NULL (all topics of the group), otherwise exactly the listing
+        let want := s!"{g};{if topics.isEmpty then "NULL" else showTs topics}"
+        answer model (impl == want)
+      | none => "bad-op"
+    | ["freqocommit", gen, mem, inst, form] =>
+      let parsed : Option (List (String × List (Int × Int × String))) := (splitD form "|").mapM fun (t : String) =>
+        match t.splitOn ":" with
+        | [n, ps] => do
+          let ps ← (splitD ps ",").mapM fun (p : String) =>
+            match p.splitOn "/" with
+            | [a, o, m] => do let a ← a.toInt?; let o ← o.toInt?; pure (a, o, m)
+            | _ => none
+          pure (n, ps)
+        | _ => none
+      match parsed, gen.toInt? with
+      | some topics, some gen =>
+        let req := KV.Mappings.offsetCommitRequest "g" gen mem inst topics 1
+        let showTs (ts : List (String × List (Int × Int × String))) : String :=
+          dash ("|".intercalate ((sortBy (fun a b => a.1 < b.1) ts).map fun (n, ps) =>
+            s!"{n}:{",".intercalate (ps.map fun (p, o, m) => s!"{p}/{o}/{m}")}"))
+        let model := s!"{req.group};{req.generation};{req.member};{req.instance_};{req.retentionMs};{showTs (req.topics.map fun (n, ps) => (n, ps.map fun p => (p.index, p.offset, p.metadata)))}"
+        let want := s!"g;{gen};{mem};{inst};86400000;{showTs topics}"
+        answer model (impl == want)
+      | _, _ => "bad-op"
+    | ["freqlo", iso, r] =>
+      match parseReq r, iso.toInt? with
+      | some ts, some iso =>
+        let req := clientRequest iso ts
+        let showT (ts : List (String × List (Int × Int × Int))) : String :=
+          dash ("|".intercalate (ts.map fun (n, ps) => s!"{n}:{dash (",".intercalate (ps.map fun (p, e, t) => s!"{p}/{e}/{t}"))}"))
+        let model := s!"{req.replicaID};{req.isolation};{showT (req.topics.map fun (n, ps) => (n, ps.map fun p => (p.partition, p.leaderEpoch, p.timestamp)))}"
+        let want := s!"-1;{iso};{showT (ts.map fun (n, ps) => (n, ps.map fun (p, t) => (p, (-1 : Int), t)))}"
+        answer model (impl == want)
+      | _, _ => "bad-op"
+    | ["flo", r, resp] =>
+      -- Client.ListOffsets on a given merged response: the model's init + fold; the monitor checks, per requested
+      -- partition, that the record reports only offsets / errors the response holds for that partition
+      match parseReq r with
+      | some ts =>
+        let topics : Option (List (String × List ResPart)) := (splitD resp "|").mapM fun (t : String) =>
+          match t.splitOn ":" with
+          | [n, ps] => do
+            let ps ← (splitD ps ",").mapM fun (p : String) =>
+              match p.splitOn "/" with
+              | [a, b, c, d] => do
+                let a ← a.toInt?; let b ← b.toInt?; let c ← c.toInt?; let d ← d.toInt?
+                pure (⟨a, b, c, d, -1⟩ : ResPart)
+              | _ => none
+            pure (n, ps)
+          | _ => none
+        match topics with
+        | some tps =>
+          let model := match clientApply (clientInit ts) ⟨0, tps⟩ with
+            | none => "panic"
+            | some recs => dash ("|".intercalate (strSort (recs.map fun ((t, _), r) => showRecord t r)))
+          -- reference: a partition without any response entry keeps its initial record; one with entries carries the error of
+          -- (one of) its entries or none, and its first/last are values the response holds for it (or the initial ones)
+          let flatR := tps.flatMap fun (t, ps) => ps.map fun p => (t, p)
+          let keysAsked := (ts.flatMap fun (t, ps) => ps.map fun (p, _) => (t, p)).eraseDups
+          let recs := splitD impl "|"
+          let holds := recs.length == keysAsked.length && keysAsked.all fun (t, p) =>
+            match recs.find? (·.startsWith s!"{t}/{p}:") with
+            | none => false
+            | some rec =>
+              match ((rec.drop (s!"{t}/{p}:").length).toString).splitOn "/" with
+              | [f, l, e, _] =>
+                let mine := flatR.filter fun (t', x) => t' == t && x.partition == p
+                let asked := (ts.flatMap fun (t', ps) => ps.filterMap fun (p', q) => if t' == t && p' == p then some q else none)
+                let initF : Int := if asked.contains (-2) then 0 else -1
+                let initL : Int := if asked.contains (-1) then 0 else -1
+                (e == "0" && mine.all (fun (_, x) => x.error == 0) || mine.any (fun (_, x) => toString x.error == e && x.error != 0)) &&
+                (f == toString initF || mine.any (fun (_, x) => x.timestamp == -2 && toString x.offset == f)) &&
+                (l == toString initL || mine.any (fun (_, x) => x.timestamp == -1 && toString x.offset == l))
+              | _ => false
+          answer model holds
+        | none => "bad-op"
+      | none => "bad-op"
+    | ["fmeta", c] =>
+      match parseCluster c with
+      | some m => answer (fmetaModel m) (impl == fmetaRef m)
+      | none => "bad-op"
+    | ["fofetch", r] =>
+      match parseOF r with
+      | some r =>
+        let want := s!"{r.error};{dash ("|".intercalate ((lastPerName r.topics).map fun (n, ps) =>
+          s!"{n}:{dash (",".intercalate (ps.map fun p => s!"{p.index}/{p.offset}/{p.metadata}/{p.error}"))}"))}"
+        answer (fofetchModel r) (impl == want)
+      | none => "bad-op"
+    | ["focommit", r] =>
+      match parseOC r with
+      | some r =>
+        let want := dash ("|".intercalate ((lastPerName r).map fun (n, ps) =>
+          s!"{n}:{dash (",".intercalate (ps.map fun (p, e) => s!"{p}/{e}"))}"))
+        answer (focommitModel r) (impl == want)
       | none => "bad-op"
     | ["rparts", ct, ts, c] =>
       let connTopic := if ct == "-" then "" else ct
